@@ -38,11 +38,28 @@ def r_disp2eig(ctx, model):
     A, MASS = sp.Symbol("A"), sp.Symbol("MASS", positive=True)
     NAT, M = sp.Symbol("NATOM", positive=True, integer=True), sp.Symbol("MROWS", positive=True, integer=True)
 
+    def einsum(ev, a, k):
+        spec = a[0].replace(" ", "") if isinstance(a[0], str) else None
+        if spec in ("ij,ij->i", "ik,ik->i") and len(a) == 3:
+            return DIAG(MatProd(as_sym(a[1]), Transposed(as_sym(a[2]))))
+        raise AnalysisError(f"numpy.einsum({a[0]!r}) is not modelled")
+
+    def real(ev, a, k):
+        x = as_sym(a[0])
+        # the Hermitian row norm is real and non-negative: real()/abs() of it is the identity
+        if getattr(x, "func", None) == DIAG and getattr(x.args[0], "func", None) == MatProd:
+            l, r = x.args[0].args
+            rt = r.args[0] if getattr(r, "func", None) == Transposed else None
+            if rt is not None and (l == CONJ(rt) or rt == CONJ(l)):
+                return x
+        return sp.Function("REALPART")(x)
+
     def run(ncols):
         intr = {
             "builtins.len": lambda ev, a, k: NAT, "numpy.repeat": lambda ev, a, k: REPEAT(as_sym(a[0]), as_sym(a[1])),
             "numpy.copy": lambda ev, a, k: a[0], "numpy.conj": lambda ev, a, k: CONJ(as_sym(a[0])), "numpy.conjugate": lambda ev, a, k: CONJ(as_sym(a[0])),
             "numpy.diag": lambda ev, a, k: DIAG(as_sym(a[0])), "numpy.diagonal": lambda ev, a, k: DIAG(as_sym(a[0])),
+            "numpy.einsum": einsum, "numpy.real": real, "numpy.abs": real,
         }
         ev = Ev(model, {}, intr, ctx=ctx)
         ev.shape_of = lambda v: Tup([M, ncols])
@@ -103,7 +120,7 @@ def r_sort(ctx, model):
         cap["abs_of"] = a[0]
         return a[0]
 
-    intr = {"numpy.array": array, "numpy.conj": conj, "numpy.conjugate": conj, "numpy.argmax": argmax, "numpy.abs": absf, "numpy.absolute": absf}
+    intr = {"numpy.array": array, "numpy.asarray": array, "numpy.conj": conj, "numpy.conjugate": conj, "numpy.argmax": argmax, "numpy.abs": absf, "numpy.absolute": absf}
     ev = Ev(model, {}, intr, ctx=ctx)
     try:
         ev.call_def(f, model.mods["cij.misc.evec_sort"], SORT, [Tup(["x0", "x1"], "list"), mk(Tm), mk(B)], {})
